@@ -97,8 +97,11 @@ def make(opt, space, c, idx, timeout):
            'seed': rnd.randrange(1, 10 ** 6), 'store_best_only': c['store_best_only'], 'hook': c['hook'] if space != 'tree' else 'observe',
            'hp_mode': hp_mode, 'hp_edge': hp_mode == 'edge', 'hyperparams': hyperparams(opt, hp_mode, rnd, na), 'timeout': timeout,
            'repro': c['draws'] == 'seeded'}
-    if opt == 'ABC' and cfg['draws'] == 'high':
-        cfg['draws'] = 'alt'              # an all-high stream never selects an onlooker: outside the fairness hypothesis of C03
+    if opt == 'ABC' and cfg['draws'] in ('high', 'alt', 'mixed'):
+        # a stream that answers 'just below 1' to every selection draw (all-high; alternating extremes with an even
+        # number of draws per pass) never selects an onlooker: outside the fairness hypothesis of C03's termination theorem
+        cfg['draws'] = 'low' if idx % 2 else 'gauss'
+        cfg['repro'] = False
     if space == 'tree':
         cfg['tree'] = {'functions': funcs(c['functions']), 'min_depth': c['depth'][0], 'max_depth': c['depth'][1], 'n_terminals': c['n_terminals']}
     return cfg
@@ -144,7 +147,7 @@ def matrix(n_total, focus=None, timeout=5.0):
             factors['hook'] = ['observe']
         if o == 'IHS' and 'edge' not in factors['hp']:
             factors['hp'] = factors['hp'] + ['edge']
-        for i in range(per):
+        for i in range(per * (4 if s == 'tree' else 1)):
             c = pick(rnd, covered, o + s, factors)
             if i == 0:                              # one plain configuration per cell, always
                 c.update({'objective': 'sphere', 'box': 'sym10', 'draws': 'seeded', 'hp': 'default', 'hook': 'observe', 'store_best_only': False,
@@ -202,4 +205,30 @@ def shrink_candidates(cfg):
         alt(hyperparams={}, hp_mode='default')
     if cfg.get('ret') == 'npscalar':
         alt(ret='pyfloat')
+    return out
+
+
+def hunts(quick, focus, timeout):
+    """Targeted sub-matrices for behaviour that a uniform sample rarely reaches: ABC's onlooker loop on objectives
+    that change sign (a few percent of ordinary seeds never terminate with 2-3 food sources), RPSO in boxes wider
+    than the light-speed constant."""
+    opts, _ = focus_optimizers(focus)
+    out = []
+    rnd = hlib.rng('hunt')
+    if 'ABC' in opts:
+        for i in range(32 if quick else 240):
+            c = {'objective': ['signchg', 'linear'][i % 2], 'ret': ['pyfloat', 'npscalar'][(i // 2) % 2], 'box': 'sym10', 'agents': [2, 3][(i // 4) % 2],
+                 'n_variables': [1, 2][(i // 8) % 2], 'n_dimensions': 1, 'n_iterations': [3, 10][(i // 16) % 2], 'draws': 'seeded',
+                 'hp': ['default', 'lo'][(i // 16) % 2], 'store_best_only': False, 'hook': 'observe'}
+            cfg = make('ABC', 'search', c, 8000 + i, min(timeout, 3.0))
+            cfg['repro'] = False
+            out.append(cfg)
+    if 'RPSO' in opts:
+        for i in range(6 if quick else 40):
+            c = {'objective': rnd.choice(OBJECTIVES), 'ret': ['pyfloat', 'npscalar'][i % 2], 'box': 'wide', 'agents': [2, 5][i % 2],
+                 'n_variables': [1, 2][(i // 2) % 2], 'n_dimensions': 1, 'n_iterations': [3, 10][(i // 2) % 2], 'draws': ['seeded', 'alt', 'high'][i % 3],
+                 'hp': 'default', 'store_best_only': False, 'hook': 'observe'}
+            cfg = make('RPSO', 'search', c, 8500 + i, timeout)
+            cfg['repro'] = False
+            out.append(cfg)
     return out
